@@ -129,6 +129,27 @@ class Evaluator:
         if isinstance(e, ast.Call) and isinstance(e.func, ast.Name) and e.func.id == "len" and len(e.args) == 1 and not e.keywords:
             v = self.eval(e.args[0], env)
             return len(v) if isinstance(v, (str, bytes, list, tuple, dict, set)) else UNKNOWN
+        if isinstance(e, ast.Attribute) and norm(e) in ("os.extsep", "os.path.extsep"):
+            return "."
+        if isinstance(e, ast.Attribute) and norm(e) in ("os.sep", "os.path.sep"):
+            return "/"
+        if isinstance(e, ast.Call) and norm(e.func) in ("os.path.splitext", "os.path.basename", "os.path.dirname", "os.path.split") and len(e.args) == 1 and not e.keywords:
+            v = self.eval(e.args[0], env)
+            if isinstance(v, str):
+                import posixpath
+
+                return getattr(posixpath, norm(e.func).split(".")[-1])(v)
+            return UNKNOWN
+        if isinstance(e, ast.Call) and isinstance(e.func, ast.Attribute) and e.func.attr in ("partition", "rpartition", "split", "rsplit", "removesuffix", "removeprefix", "count", "find", "rfind", "index", "isdigit", "replace") and not e.keywords:
+            recv = self.eval(e.func.value, env)
+            args = [self.eval(a, env) for a in e.args]
+            if isinstance(recv, str) and all(isinstance(a, (str, int)) and not isinstance(a, bool) for a in args):
+                try:
+                    r = getattr(recv, e.func.attr)(*args)
+                    return tuple(r) if isinstance(r, list) else r
+                except Exception:
+                    return UNKNOWN
+            return UNKNOWN
         if isinstance(e, ast.Call) and isinstance(e.func, ast.Attribute) and e.func.attr in ("startswith", "endswith", "lower", "upper", "strip", "lstrip", "rstrip") and not e.keywords:
             recv = self.eval(e.func.value, env)
             args = [self.eval(a, env) for a in e.args]
@@ -289,6 +310,10 @@ class Evaluator:
         if isinstance(t, ast.Name):
             env[t.id] = v
         elif isinstance(t, (ast.Tuple, ast.List)):
+            if isinstance(v, (tuple, list)) and len(v) == len(t.elts) and all(isinstance(x, ast.Name) for x in t.elts):
+                for x, xv in zip(t.elts, v):
+                    env[x.id] = xv
+                return
             for x in ast.walk(t):
                 if isinstance(x, ast.Name):
                     env[x.id] = UNKNOWN
